@@ -1196,6 +1196,7 @@ func gen(seed uint64, tier string) {
 		b := &geom.Bounds{Min: pt(x0, y0), Max: pt(x0+r.Range(0, 40), y0+r.Range(0, 40))}
 		fmt.Fprintf(out, "bnd g %s\n", G(b))
 	}
+	genGC(out, seed, tier) // op.Area / op.Length on collections (gc.go), own random stream
 	genOp(out, seed, tier) // op.Within / op.FixOrientation lines (op.go), own random stream
 }
 
@@ -1521,7 +1522,9 @@ func concurrentEval(line string) string {
 func impl() {
 	vproto.Lines(func(line string, out *bufio.Writer) {
 		var res string
-		if strings.HasPrefix(line, "op") {
+		if strings.HasPrefix(line, "opgc ") {
+			res = evalGC(line)
+		} else if strings.HasPrefix(line, "op") {
 			res = evalOp(line)
 		} else if strings.HasPrefix(line, "cc ") {
 			res = concurrentEval(line[3:])
